@@ -444,36 +444,57 @@ class C17(Prop):
                  'functions (generated) and the C01 array model; one switch per defect; theorems for the repaired behaviour, computed '
                  'counterexamples for the pinned code; correspondence on generated arrays, requests and view histories, judged by '
                  'the extracted brute-force region evaluator and integer window arithmetic')
-    level_text = ('Proved in Coq (unbounded rank, shape, descriptors): with the defects repaired, a slice is exactly the product of the '
-                  'per-dimension regions {i | start <= x_i <= end} resp. {x_i < end} of the coordinates the descriptor yields, errors '
-                  'exactly when start > end, units are of different base, a region is empty or leaves the data; unspecified dimensions '
-                  'are returned in full in Inclusive mode (the Exclusive counterpart is refuted on a computed witness: pinned open '
-                  'finding); an exactly rescaled request selects the same box (C18, second half, parametric in the factor); a view '
-                  'read with offset_d + count_d <= window_d over the integers is the array read at origin + offset, a view write '
-                  'changes exactly the addressed cells and no cell outside the window, any other request is refused with OutOfBounds '
-                  '- for every u64 offset and count, i.e. including sums that wrap.  The per-dimension position->index theorems of '
-                  'C07 enter as hypotheses of exactly their published shape (discharged here for sampled dimensions).  The model is '
-                  'tied to the code by the correspondence run; the specification judges the implementation\'s answers.')
-    level_note = ('Assumed / trusted: the C07 index theorems for set, data-frame and range axes in the shape of sampled_index_spec; '
-                  'monotone finite axes; splitUnit\'s split of atomic SI units (C18); HDF5 hyperslab semantics as in Data/NDArr.v; '
-                  'x86-64 SSE2 doubles.  Conventions fixed in SliceSpec.v: a request with start = end is a point request (closed '
-                  'interval in both modes, pinned by testDataSlice); a unit on a dimension without unit is ignored; requests with '
-                  'different numbers of start and end positions, units for positions that are not given, shapes with an empty '
-                  'dimension and non-finite positions are not judged.')
-    nontrivial_rule = ('cases: an array of rank 1..3 (shape entries 1..6, random descriptors of all four kinds, units) with requests whose '
-                       'positions sit on coordinates, one ulp beside them, between them, below the first / beyond the last / beyond the '
-                       'data, reversed, point and near-point requests, both modes and the default, unit vectors absent / none / own / '
-                       'partial / foreign, exactly rescaled twins; view histories: windows inside / at the edge / crossing / wrapping, '
-                       'requests inside / touching / crossing / with offset or count near 2^64 / rank mismatch, reads and writes '
-                       'interleaved with whole-array dumps.  Non-trivial = the model returned data for at least one line; '
-                       'distinct = distinct case text')
-    assumptions = ['a dimension\'s coordinates are the doubles its descriptor yields (sampled: fl(fl(i*interval)+offset))',
+    level_text = ('Proved in Coq (unbounded in rank, shape, descriptor contents, 64-bit offsets and counts; full statements for every '
+                  'behaviour with the four repairable defects off, i.e. for what the code becomes with notes/proposed-fixes/C17-*.patch): '
+                  'dataSlice returns exactly what the specification\'s brute-force evaluator returns (C17_slice_meets_spec) - the box whose '
+                  'extent in every specified dimension is the region {i | start <= x_i <= end} resp. {x_i < end} of the coordinates the '
+                  'descriptor yields (slice_exact; the evaluator is proved equal to that Prop-level reading on monotone axes, '
+                  'C17_spec_dim_exact), an error exactly when start > end (slice_start_gt_end_rejected, for every behaviour), the units '
+                  'have different base units, a region is empty or leaves the data (slice_oob_rejected); unspecified dimensions in full '
+                  'in Inclusive mode with the padding the code has (slice_unspecified_full_inclusive) - the Exclusive counterpart is '
+                  'refuted on a computed witness (pinned open finding); the ids the drivers print are the specification\'s ids in '
+                  'row-major order (C17_slice_read_ids); positionAndExtentInData for all u64 values (C17_in_data_spec).  C18, second '
+                  'half: a request whose positions scale exactly to (s, e) returns what (s, e, dimension unit) returns, parametric in '
+                  'the factor (rescale_invariant, rescale_invariant_slice); getSIScaling is the quotient of the generated prefix '
+                  'factors for all 21 x 21 prefix pairs (C18_si_scaling_fdiv); x * 1.0 = x.  Views: the constructor accepts exactly '
+                  'the windows inside the array; a request with offset_d + count_d <= window_d over the integers is the array read at '
+                  'origin + offset (view_read_is_array_read_at_origin_plus_offset), a write changes exactly the addressed cells and no '
+                  'cell outside the window (view_write_frame), every other request - for ANY u64 offset and count, including sums that '
+                  'wrap - is refused with OutOfBounds and transfers nothing (view_oob_rejected).  For the pinned code each statement '
+                  'fails on a computed witness (..._refuted) and the last theorem current_is_repaired is the open obligation.  The '
+                  'model is tied to the code by the correspondence run (model == implementation on every line, also for every single '
+                  'patch with the matching switch); the extracted specification judges the implementation\'s answers.')
+    level_note = ('Assumed / trusted: the C07 position->index theorems for set, data-frame and range dimensions enter as hypotheses of '
+                  'exactly the shape of sampled_index_spec ([idx_spec]; discharged here for sampled dimensions from Axis/SampledProofs.v); '
+                  'axes are finite and non-decreasing ([axis_ok]; proved for sampled, integer and sorted tick axes); splitUnit\'s split '
+                  'of an atomic SI unit into prefix and base unit (C18); HDF5 hyperslab semantics as in Data/NDArr.v, plus: a hyperslab '
+                  'whose end reaches 2^64 passes HDF5\'s own bound test (observed as a buffer overrun; only reachable through the wrapped '
+                  'window test); x86-64 SSE2 doubles.  Conventions fixed in SliceSpec.v: a request with start = end is a point request '
+                  '(closed interval in both modes; pinned by testDataSlice); a unit on a dimension without unit is ignored (as the pair '
+                  'overload of positionToIndex does); an element beyond the descriptor\'s coordinates (fewer ticks / labels than data) '
+                  'has no coordinate and is never selected.  Not judged (specification answers ANY): different numbers of start and '
+                  'end positions, units for positions that are not given, a shape entry 0, non-finite positions, a count 0 in '
+                  'positionAndExtentInData, what a view does whose construction should have been refused.')
+    nontrivial_rule = ('cases: an array of rank 1..3 (shape entries 1..6, random descriptors of all four kinds, units from s/ms/us/ks, '
+                       'Hz/kHz/MHz, V/mV/uV) with requests whose positions sit on coordinates, one ulp beside them, between them, below '
+                       'the first / beyond the last coordinate / beyond the data, reversed, point and near-point requests, both modes and '
+                       'the default, unit vectors absent / none / own / partial / foreign; exactly rescaled twins (exactness checked in '
+                       'binary64 before the case is emitted); 0..rank-1 given positions (one request per case: the pinned tree aborts on '
+                       'them); malformed: too many entries, NaN / infinite positions, descriptors shorter than the data.  View histories: '
+                       'windows inside / at the edge / crossing / beyond / wrapping / of wrong rank, then 4-9 requests inside / touching / '
+                       'crossing in one dimension / offset near 2^64 / count near 2^64 (last line: HDF5 overruns the buffer on the pinned '
+                       'tree) / empty count or offset / zero counts / rank mismatch, reads and writes interleaved with whole-array dumps.  '
+                       'Non-trivial = the model returned data for at least one line; distinct = distinct case text')
+    assumptions = ['a dimension\'s coordinates are the doubles its descriptor yields (sampled: fl(fl(i*interval)+offset), range: the ticks, set / data frame: the index)',
+                   'the C07 index theorems hold for set / data-frame / range dimensions in the shape of sampled_index_spec (hypothesis idx_spec)',
                    'start = end denotes a point request (closed interval in both modes)',
-                   'prefix factors: the binary64 literals of PREFIX_FACTORS (generated table); pow(x, 1) is never called for power-1 units',
-                   'a set dimension without labels / a data-frame dimension over a frame without rows is an unbounded integer axis']
+                   'prefix factors: the binary64 literals of PREFIX_FACTORS (generated table); pow() is not called for units without a power',
+                   'a set dimension without labels / a data-frame dimension over a frame without rows is an unbounded integer axis (as in C07)',
+                   'HDF5 accepts a hyperslab whose end start+count reaches 2^64 (its bound test wraps); modelled as undefined behaviour']
     trusted_base = ['hand models coq/Access/Slice.v, View.v (statement-for-statement readings of src/util/dataAccess.cpp, src/DataView.cpp, '
-                    'include/nix/DataView.hpp, NDSize.hpp), tied by correspondence',
-                    'translator output coq/Gen/GenDimensions.v, GenTables.v']
+                    'include/nix/DataView.hpp, NDSize.hpp, DataSet.hpp), tied by correspondence',
+                    'translator output coq/Gen/GenDimensions.v (getSampledIndex, getSetIndex, getDataFrameIndex), GenTables.v (PREFIX_FACTORS); hand model Axis/RangeModel.v (getIndex)',
+                    'array model coq/Data/NDArr.v (C01)']
 
     OOB = ('nix::OutOfBounds', 'std::out_of_range')
 
@@ -498,11 +519,15 @@ class C17(Prop):
         quick = tier == 'quick'
         out = directed()
         k = scale
-        gen_slices(rnd, (110 if quick else 1500) * k, 12 if quick else 18, (90 if quick else 600) * k, out)
-        gen_malformed(rnd, (40 if quick else 400) * k, out)
-        gen_views(rnd, (260 if quick else 4000) * k, out)
-        gen_indata(rnd, (30 if quick else 300) * k, out)
-        return out
+        gen_slices(rnd, (220 if quick else 2500) * k, 12 if quick else 18, (110 if quick else 500) * k, out)
+        gen_malformed(rnd, (50 if quick else 500) * k, out)
+        gen_views(rnd, (600 if quick else 8000) * k, out)
+        gen_indata(rnd, (40 if quick else 400) * k, out)
+        # on the pinned tree some hundred cases abort the driver (read past the argument vectors, HDF5 overrun after a wrapped
+        # window test); spread them evenly over the driver processes (the engine gives up on a shard after 400 restarts)
+        head, tail = out[:len(directed())], out[len(directed()):]
+        rnd.shuffle(tail)
+        return head + tail
 
     # ---- classification of failures (stable signatures for known-findings.json) ----
     def first_diff(self, impl, spec):
